@@ -71,6 +71,9 @@ func lockOp(c *ssa.CallCommon) (path string, op string) {
 	if !ok || fn.Pkg == nil || fn.Pkg.Pkg.Path() != "sync" || len(c.Args) == 0 {
 		return "", ""
 	}
+	if fn.Signature.Recv() == nil {
+		return "", ""
+	}
 	recv := typeBaseName(fn.Signature.Recv().Type())
 	if recv != "Mutex" && recv != "RWMutex" {
 		return "", ""
